@@ -55,7 +55,8 @@ def gen_case(rng, tier):
     return {'progs': progs, 'pauses': rng.randrange(1 << 30),
             'ctx': rng.choice([0.0, 0.0, 0.5, 1.0]),
             # every other process works on a cache object that was pickled and unpickled
-            'pickled': rng.random() < 0.3}
+            'pickled': rng.random() < 0.3,
+            'names': LONGKEYS if rng.random() < 0.15 else None}
 
 
 def gen_inject_case(rng, tier):
@@ -88,6 +89,10 @@ def gen_inject_case(rng, tier):
 KEYS = ['k1', 'k10', 'k', 'k1x']
 # known finding D14: a key named like the dbm.dumb file of another key
 COLLIDING = ['k1', 'k1.dat', 'k1.dir']
+# names near the file-name length limit that differ only in their last characters (and two
+# of their prefixes): still one file set per key
+_P = 'k' * 240
+LONGKEYS = [_P + 'a' * 10, _P + 'b' * 10, _P, _P[:200]]
 
 
 def kname(k, names=None):
